@@ -2,6 +2,9 @@ import LoguruModel.Rotation.Lemmas
 import LoguruModel.Rotation.CalendarFact
 import LoguruModel.Rotation.GroupLemmas
 import LoguruModel.Rotation.CatchUp
+import LoguruModel.Rotation.Platform
+import LoguruModel.Rotation.TimeLemmas
+import LoguruModel.Rotation.FloatParsers
 /-
 C07 – property theorems: time-based rotation starts a new file exactly at the boundaries the
 specification denotes.  Everything is stated about the model of `Rotation.RotationTime` whose
@@ -545,5 +548,159 @@ example :
     (timeRun (Form.dailyAt ⟨12, 0, 0, 0, some 32400000000⟩).cfg none
       [⟨0, ⟨1, 3600000000⟩, 1, 1, 0⟩, ⟨0, ⟨10800000000, -18000000000⟩, 1, 1, 0⟩, ⟨0, ⟨10800000001, 0⟩, 1, 1, 0⟩]).1
       = [false, true, false] := by decide +kernel
+
+/-! ### round 5: which creation-time functions are installed; file systems that cannot keep the tag -/
+
+/-- `platform_dispatch`: `load_ctime_functions` (dispatch regenerated, `Gen.ctimeDispatch`) installs the
+Windows pair on `os.name == "nt"`, else the birth-time pair where `os.stat_result` has `st_birthtime`,
+else the extended-attribute pair where `os.getxattr`/`os.setxattr` exist, else the `st_mtime` fallback –
+so on Linux the functions the theorems `creation_time_source` … are about are the ones in use -/
+theorem platform_dispatch (b x : Bool) :
+    platformOf true b x = .windows ∧ platformOf false true x = .macos ∧
+    platformOf false false true = .linuxXattr ∧ platformOf false false false = .noXattr := by
+  cases b <;> cases x <;> decide
+
+/-- `untagged_restart_counts_from_last_write`: where the creation tag cannot be persisted (`set_ctime` a
+no-op: the fallback pair, or `setxattr` refused by the file system) a sink that is restarted at any point
+of any history reads as "creation time" the instant of the LAST RECORD written before (the modification
+time) – and where it can be persisted the history is the one `restart_counts_from_rotation_instant` is
+about. -/
+theorem untagged_restart_counts_from_last_write (ls : List Leaf) (ctime size : Int) (ops : List SinkOp) :
+    (Sink.runOpsOn false ls (Sink.init ls ctime size) ops).creation = lastStamp ctime ops ∧
+    Sink.runOpsOn true ls (Sink.init ls ctime size) ops = Sink.runOps ls (Sink.init ls ctime size) ops :=
+  ⟨(Sink.untagged_creation ls ops (Sink.init ls ctime size) rfl).2, Sink.runOpsOn_true ls ops _⟩
+
+/-- what that means for the property (observation, design_notes/C07.md): rotation every 100 µs, file created at 0,
+records at 150 (rotates: the new file is created at 150), 190, then the sink is restarted, record at 260.  With
+the tag the boundary 250 = 150 + 100 is honoured (a third file); without it the sink counts from the last write,
+190, and the record at 260 stays in the second file. -/
+theorem untagged_interval_restart_is_late :
+    let ls := [Leaf.time (Form.interval 100).cfg]
+    let ops := [SinkOp.msg ⟨⟨150, 0⟩, 1, 1, 1⟩, .msg ⟨⟨190, 0⟩, 1, 1, 1⟩, .restart, .msg ⟨⟨260, 0⟩, 1, 1, 1⟩]
+    ((Sink.runOpsOn true ls (Sink.init ls 0 0) ops).files.map fun f => f.msgs.map Prod.fst) = [[], [0, 1], [2]] ∧
+    ((Sink.runOpsOn false ls (Sink.init ls 0 0) ops).files.map fun f => f.msgs.map Prod.fst) = [[], [0, 1, 2]] := by
+  decide +kernel
+
+/-! ### round 5: every accepted time / weekday spelling denotes a VALID meaning -/
+
+/-- `spelling_builds_valid_form`: whatever `parse_daytime` accepts is in range – the weekday is 0..6 (names table and
+`w<N>` range test regenerated), the time of day has hour 0..23, minute and second 0..59, microsecond 0..999999 and is
+naive (`datetime.strptime` modelled for the regenerated format list, `%I`/`%p` arithmetic included) – so the meaning it
+builds is a valid `Form`.  This discharges the side condition `F.Valid` of the invariant for spellings (it used to be
+covered by the correspondence run only). -/
+theorem spelling_builds_valid_form (s : Str) :
+    (∀ t, parseDaytime s = .ok (some (none, some t)) → (Form.dailyAt t).Valid) ∧
+    (∀ d t, parseDaytime s = .ok (some (some d, some t)) → (Form.weekdayAt d t).Valid) ∧
+    (∀ d, parseDaytime s = .ok (some (some d, none)) → (Form.weekdayAt d midnight).Valid) := by
+  refine ⟨?_, ?_, ?_⟩
+  · intro t h
+    exact ((parseDaytime_inRange s _ _ h).2 t rfl).1
+  · intro d t h
+    have hr := parseDaytime_inRange s _ _ h
+    have hd := hr.1 d rfl
+    have ht := hr.2 t rfl
+    exact ⟨hd.1, hd.2, ht.1, ht.2⟩
+  · intro d h
+    have hd := (parseDaytime_inRange s _ _ h).1 d rfl
+    exact ⟨hd.1, hd.2, by simp [TimeInit.InRange, midnight], rfl⟩
+
+/-- hence the main invariant holds for every rotation built from a weekday[-at-time] or time spelling, with no
+hypothesis left about the spelling beyond "the parser accepted it" -/
+theorem accepted_daytime_spelling_is_exact (s : Str) (d : Int) (t : TimeInit)
+    (h : parseDaytime s = .ok (some (some d, some t))) (c off : Int) (x : CallIn) (xs : List CallIn)
+    (hx : ∀ y ∈ x :: xs, y.ctime = c ∧ y.stamp.off = off) :
+    ∃ l, (timeRun (Form.weekdayAt d t).cfg none (x :: xs)).2 = some l ∧
+      IsNext ((Form.weekdayAt d t).B (c + (Form.weekdayAt d t).frame off))
+        (latest ((Form.weekdayAt d t).frame off) (c + (Form.weekdayAt d t).frame off) (x :: xs)) l :=
+  limit_is_next_boundary _ (step_obligations_all _ ((spelling_builds_valid_form s).2.1 d t h)) c off x xs hx
+
+/-- non-vacuity: "w0 at 11:30 PM"-like spellings are rejected, "Monday at 13:00" is accepted and valid -/
+example : (Form.weekdayAt 0 ⟨13, 0, 0, 0, none⟩).Valid :=
+  (spelling_builds_valid_form "Monday at 13:00".toList).2.1 0 ⟨13, 0, 0, 0, none⟩ rfl
+
+/-! ### round 5: `parse_duration` with the arithmetic Python performs -/
+
+/-- `duration_float_table`: `parseDurationF` – `float(value) * unit` summed in IEEE-754 binary64 (units regenerated as
+the source holds them: ints, and the float literals 0.001 / 0.000001), then `datetime.timedelta(seconds=<float>)` as
+`_datetimemodule.c` computes it – evaluated by the kernel.  The documented spellings denote exactly what the exact-decimal
+reading `parseDuration` says; where a value falls between two microseconds the two readings can part: `"1.0000005 s"`
+is 1 000 001 µs for Python (the double lies above the half) and 1 000 000 µs read as a decimal (half to even).  The
+harness therefore keeps such ties out of the function-level stream and checks the binary64 reading bit for bit instead. -/
+theorem duration_float_table :
+    ((parseDurationF "1h 30 minutes".toList).toOption = some (some 5400000000) ∧
+     (parseDurationF "1 week, 2 d".toList).toOption = some (some 777600000000) ∧
+     (parseDurationF "1.5 h".toList).toOption = some (some 5400000000) ∧
+     (parseDurationF "100 ms".toList).toOption = some (some 100000) ∧
+     (parseDurationF "1.1 s".toList).toOption = some (some 1100000) ∧
+     (parseDurationF "1.5 us".toList).toOption = some (some 2) ∧
+     (parseDurationF "2.5 us".toList).toOption = some (some 2) ∧
+     (parseDurationF "1.0000005 s".toList).toOption = some (some 1000001) ∧
+     (parseDuration "1.0000005 s".toList).toOption = some (some 1000000) ∧
+     (parseDurationF "12:00".toList).toOption = some none ∧
+     (parseDurationF "1 parsec".toList).toOption = none ∧ (parseDurationF "1000000000 d".toList).toOption = none) := by
+  decide +kernel
+
+/-- `duration_float_exact`: for a duration spelling `<n> <unit>` with an integer `n` and a unit of `U` whole seconds
+(`s`, `min`, `h`, `d`, `w`, `month`, `y`: ints in the source) Python's own arithmetic – `0 + float(n) * U` in binary64,
+then `datetime.timedelta(seconds=…)` – yields EXACTLY `n·U` seconds, for all `n·U < 2^53`: no rounding anywhere, so
+the exact-decimal reading the theorems use is what the running code computes (rests on `F64.roundPos_exact`). -/
+theorem duration_float_exact (n U : Nat) (hn : 0 < n) (hU : 0 < U) (h : n * U < 2 ^ 53) :
+    F64.tdSeconds (F64.add (.fin false 0 0) (F64.mul (Dec.toF64 ⟨(n : Int), 0⟩) (F64.ofInt (U : Int)))) =
+      .us (((n * U : Nat) : Int) * 1000000) := by
+  have hnlt : n < 2 ^ 53 := Nat.lt_of_le_of_lt (Nat.le_mul_of_pos_right n hU) h
+  have hUlt : U < 2 ^ 53 := Nat.lt_of_le_of_lt (Nat.le_mul_of_pos_left U hn) h
+  have hs : F64.IsDy (Dec.toF64 ⟨(n : Int), 0⟩) false n 0 0 := by
+    have h1 : decide ((n : Int) < 0) = false := by simp
+    have h2 : (n : Int).natAbs = n := by simp
+    simp only [Dec.toF64, h1, h2]
+    exact F64.ofDec_nat_dy n hn hnlt
+  have hu := F64.ofNat_dy U hU hUlt
+  have hm := F64.mul_dy _ _ false false n 0 0 U 0 0 hs hu hn hU h (by omega) (by omega)
+  have hb : (false != false) = false := by decide
+  rw [hb] at hm
+  exact F64.tdSeconds_whole _ _ (F64.add_zero_dy _ _ hm (Nat.mul_pos hn hU) h)
+
+/-- non-vacuity: "90 minutes" – `float("90") * 60` -/
+example : F64.tdSeconds (F64.add (.fin false 0 0) (F64.mul (Dec.toF64 ⟨90, 0⟩) (F64.ofInt 60))) = .us 5400000000 :=
+  duration_float_exact 90 60 (by decide) (by decide) (by decide)
+
+/-- the shortest distance between two boundaries of the periodic meanings (microseconds) -/
+def periodOf : Form → Int
+  | .hourly => 3600000000
+  | .daily => 86400000000
+  | .dailyAt _ => 86400000000
+  | .weekly => 604800000000
+  | .weekdayAt _ _ => 604800000000
+  | _ => 1
+
+/-- `catch_up_cost_periodic`: for hourly / daily / daily-at-a-time / weekly / weekday[-at-time] rotations the loop as
+written runs at most `(r − l)/period + 1` times from a boundary `l ≤ r` (period = 1 h, 1 d, 7 d): the measure
+`record_time − _limit` drops by a whole period per iteration (for the remaining meanings `periodOf` is 1 µs and the
+statement is `catch_up_loop_as_written`; intervals have the exact count `catch_up_interval_cost`) -/
+theorem catch_up_cost_periodic (F : Form) (ok : StepOK F) (c l r : Int) (hl : F.B c l) (hle : l ≤ r) :
+    (catchUpIters F.cfg.step.apply (catchUpFuel l r) l r : Int) ≤ (r - l) / periodOf F + 1 := by
+  have hδ : 0 < periodOf F := by cases F <;> simp [periodOf]
+  have hP : ∀ l, F.B c l → F.B c (F.cfg.step.apply l) ∧ l + periodOf F ≤ F.cfg.step.apply l := by
+    intro l hl
+    have hn := ok.step c l hl
+    refine ⟨hn.1, ?_⟩
+    have hlt := hn.2.1
+    have hb := hn.1
+    generalize F.cfg.step.apply l = l' at hn hlt hb
+    cases F with
+    | hourly => simp only [Form.B, periodOf] at *; omega
+    | daily => simp only [Form.B, periodOf] at *; omega
+    | dailyAt ti => simp only [Form.B, periodOf] at *; omega
+    | weekly => simp only [Form.B, periodOf, weekdayOf] at *; omega
+    | weekdayAt w ti => simp only [Form.B, periodOf, weekdayOf] at *; omega
+    | interval d => simp only [periodOf]; omega
+    | monthly => simp only [periodOf]; omega
+    | yearly => simp only [periodOf]; omega
+  have hq0 : 0 ≤ (r - l) / periodOf F := Int.ediv_nonneg (by omega) (by omega)
+  have hqle : (r - l) / periodOf F ≤ r - l := Int.ediv_le_self _ (by omega)
+  have h := catchUp_measure F.cfg.step.apply (F.B c) (periodOf F) hδ hP r ((r - l) / periodOf F).toNat l
+    (catchUpFuel l r) hl hle (by omega) (by unfold catchUpFuel; omega)
+  have := h.2.2.1
+  omega
 
 end C07
